@@ -71,7 +71,17 @@
 (m) ARCHITECTURE SWEEP, fixed block of the quick tier too: every (nv, nh) in 1..4 x 1..4 for the positive and the complex
     state and every (nv, nh, na) in 1..4 x 1..4 x 1..3 for the density matrix, all parameter tensors of both networks drawn
     at random: conditionals + single-layer samplers, reported distribution / detailed balance / invariance, a k = 0 call
-    without overwriting (followed by (k)) and a k >= 1 call with overwriting."""
+    without overwriting (followed by (k)) and a k >= 1 call with overwriting.
+(l) SHAPES ARE COMPARED STRICTLY AND BEFORE ANY USE (seed round 8: a decorator that always squeeze_(0)-es dropped the batch axis
+    of a ONE-ROW batch and reshaped the caller's (1, nv) start tensor in place; the harness read the requested shape from the
+    caller's tensor AFTER the call and crashed on a boolean-mask index).  The requested shape is recorded before every call;
+    every implementation result is REQUIRED to have it (tuple equality, never broadcasting) and every tensor that belongs to the
+    caller (start state, the larger tensor it is a view of, out= buffers, arguments of the conditionals, a result handed back
+    for continuation) is REQUIRED to keep its shape (keeps_shape) before anything is reshaped / indexed; the dependent comparisons
+    are skipped when a shape is wrong.  FIXED CASES FIRST (one_row_first): one chain as a (1, nv) start state in every 2-D layout
+    and dtype, 3-D start states with axes of size one, the 1-D form, k = 0..3, overwrite off / on, the three entry points, chains
+    continued from the one-row result; sample(k, 1) / sample(k) / sample(k, num_samples=1); prob_* and sample_* (with and without
+    out=) on a one-row batch -- also for every net and after every history step (check_conditionals)."""
 import itertools, math, time
 import numpy as np
 import gen
@@ -87,6 +97,8 @@ RULE = ("state types positive / complex / density; shapes nv,nh in 1..4, na in 1
         "tests; then three slowly mixing nets with chains of k = 17, 31, 32, 33, 64, 100 and one k in 128..1500 (content tie "
         "+ law tests against matrix_power(kernel, k)); then three single-precision nets (module=<RBM>.float()); histories: "
         "six kinds of update of the live object incl. replacing the network through the rbm_am setter; "
+        "one-row requests (a (1, nv) start state in every 2-D layout / dtype, 3-D start states with size-1 axes, 1-D, num_samples=1; "
+        "prob_* / sample_* on a one-row batch) with every shape compared strictly with the requested one; "
         "then ALL 16 binary shapes x {positive, complex} and ALL 48 purification shapes once each (conditionals, kernel, a k = 0 "
         "and a k >= 1 call); every overwrite=False call (any k, k = 0 in fixed cases through every entry point / layout / dtype) "
         "is followed by an in-place change of the returned tensor and by a continuation of the chain from it with "
@@ -374,6 +386,10 @@ def check_conditionals(ctx, net):
         if not ok:
             return False
         ph, pa, pv = out
+        if not ctx.require("conditional-probability methods (batched): results have shape (rows, units)",
+                           ph.shape == (len(V), net.nh) and pa.shape == (len(V), net.na) and pv.shape == (len(HH), net.nv), case,
+                           {"prob_h_given_v": list(ph.shape), "prob_a_given_v": list(pa.shape), "prob_v_given_ha": list(pv.shape)}):
+            return False
         mph, mpa, mpv = m.call("c05_p_conds", *net.params, V, H, A)
         ctx.agree("prob_h_given_v", ph, mph, case, **tol)
         ctx.agree("prob_a_given_v", pa, mpa, case, **tol)
@@ -404,6 +420,7 @@ def check_conditionals(ctx, net):
                 good &= ctx.require("prob_v_given_ha 1-D form has shape (nv,) and equals the batched row",
                                     o.shape == (net.nv,) and close_rel(o, pv[j], rtol=rt), case)
         net.impl_conds = (ph, pa, pv)
+        good &= one_row_conditionals(ctx, net)
         good &= check_layer_samplers(ctx, net)
     else:
         ok, out = ctx.call("conditional-probability methods (batched)", case, lambda: (
@@ -411,6 +428,10 @@ def check_conditionals(ctx, net):
         if not ok:
             return False
         ph, pv = out
+        if not ctx.require("conditional-probability methods (batched): results have shape (rows, units)",
+                           ph.shape == (len(V), net.nh) and pv.shape == (len(H), net.nv), case,
+                           {"prob_h_given_v": list(ph.shape), "prob_v_given_h": list(pv.shape)}):
+            return False
         mph, mpv = m.call("c05_b_conds", *net.params, V, H)
         ctx.agree("prob_h_given_v", ph, mph, case, **tol)
         ctx.agree("prob_v_given_h", pv, mpv, case, **tol)
@@ -431,7 +452,49 @@ def check_conditionals(ctx, net):
                 good &= ctx.require("prob_v_given_h 1-D form has shape (nv,) and equals the batched row",
                                     o.shape == (net.nv,) and close_rel(o, pv[j], rtol=rt), case)
         net.impl_conds = (ph, None, pv)
+        good &= one_row_conditionals(ctx, net)
         good &= check_layer_samplers(ctx, net)
+    return good
+
+
+def one_row_conditionals(ctx, net, n_rows=2):
+    """(l) ONE-ROW BATCHES: a batch that happens to hold a single configuration, handed over as a (1, units) tensor, is a batch:
+    prob_*( (1, units) ) has shape (1, units') -- compared STRICTLY, a broadcasting comparison would not see a dropped axis --,
+    equals the exact conditional of that row, and the argument keeps its shape and values."""
+    import torch
+    rbm, dt, rt = net.rbm, net.wdtype, net.rt
+    V, H, A = net.V, net.H, net.A
+    if net.purif:
+        HH = np.repeat(H, len(A), axis=0); AA = np.tile(A, (len(H), 1))
+        jobs = [("prob_h_given_v", (V,), net.PH, net.nh), ("prob_a_given_v", (V,), net.PA, net.na),
+                ("prob_v_given_ha", (HH, AA), net.PV.reshape(-1, net.nv), net.nv)]
+    else:
+        jobs = [("prob_h_given_v", (V,), net.PH, net.nh), ("prob_v_given_h", (H,), net.PV[:, 0, :], net.nv)]
+    good = True
+    for name, args, E, units in jobs:
+        fn = getattr(rbm, name)
+        for i in sorted({int(x) for x in ctx.rng.integers(len(E), size=n_rows)} | {len(E) - 1}):
+            targs = [torch.tensor(a[i:i + 1], dtype=dt) for a in args]
+            keep = [t.clone() for t in targs]
+            case = net.case(part="conditionals", method=name, call_form="one-row batch (1, units)",
+                            configuration=[a[i].tolist() for a in args])
+            ok, res = ctx.call("%s(<one-row batch>)" % name, case, lambda: fn(*targs))
+            ctx.count("one_row:%s" % name)
+            if not ok:
+                good = False
+                continue
+            r = tnp(res) if isinstance(res, torch.Tensor) else None
+            if not ctx.require("%s of a one-row batch (1, units) has shape (1, %s)" % (name, "units'"),
+                               r is not None and tuple(r.shape) == (1, units), case,
+                               {"shape": list(shp(res) or ()), "expected shape": [1, units]}):
+                good = False
+                continue
+            good &= ctx.require("%s of a one-row batch is the exact conditional of that row" % name,
+                                close_rel(r, E[i:i + 1], rtol=rt, atol=1e-12 if rt <= RT else rt * 1e-2), case,
+                                {"impl": r.tolist(), "exact": E[i:i + 1].tolist()})
+            good &= ctx.require("%s leaves its one-row argument untouched (shape and values)" % name,
+                                all(shp(t) == shp(k0) and bool(torch.equal(t, k0)) for t, k0 in zip(targs, keep)), case,
+                                {"argument shapes after": [list(shp(t) or ()) for t in targs]})
     return good
 
 
@@ -461,19 +524,26 @@ def check_layer_samplers(ctx, net, reps=3000):
         R = len(E)
         i1 = int(ctx.rng.integers(R))
         untied = False
-        for form in ("no out", "out=", "1-D"):
+        for form in ("no out", "out=", "1-D", "one row", "one row out="):
             seed = ctx.torch_seed()
             case = net.case(part="layer samplers", method=name, call_form=form, torch_seed=seed)
-            what = "%s(<%s>%s)" % (name, "one configuration, 1-D" if form == "1-D" else "all configurations",
-                                    ", out=<fresh tensor>" if form == "out=" else "")
+            what = "%s(<%s>%s)" % (name, "one configuration, 1-D" if form == "1-D" else
+                                    "one configuration as a one-row batch (1, units)" if form.startswith("one row") else
+                                    "all configurations", ", out=<fresh tensor>" if form.endswith("out=") else "")
             if form == "1-D":
                 targs = [torch.tensor(a[i1], dtype=dt) for a in args]
                 Ef, shape = E[i1:i1 + 1], (units,)
                 case["configuration"] = [a[i1].tolist() for a in args]
+            elif form.startswith("one row"):
+                # a batch of exactly one configuration is a batch: the sample has shape (1, units), strictly
+                targs = [torch.tensor(a[i1:i1 + 1], dtype=dt) for a in args]
+                Ef, shape = E[i1:i1 + 1], (1, units)
+                case["configuration"] = [a[i1].tolist() for a in args]
             else:
                 targs = [torch.tensor(a, dtype=dt) for a in args]
                 Ef, shape = E, (R, units)
-            buf = torch.full(shape, 7.0, dtype=dt) if form == "out=" else None
+            buf = torch.full(shape, 7.0, dtype=dt) if form.endswith("out=") else None
+            arg_shapes = [tuple(t.shape) for t in targs]
             with BernoulliSpy() as spy:
                 ok, res = ctx.call(what, case, (lambda: fn(*targs)) if buf is None else (lambda: fn(*targs, out=buf)))
             ctx.count("layer_sampler:%s:%s" % (name, form))
@@ -481,9 +551,12 @@ def check_layer_samplers(ctx, net, reps=3000):
                 good = False
                 continue
             r = tnp(res) if isinstance(res, torch.Tensor) else None
+            kept = keeps_shape(ctx, what, case, [("argument %d" % q, t, s0) for q, (t, s0) in enumerate(zip(targs, arg_shapes))] +
+                               ([("out= tensor", buf, shape)] if buf is not None else []))
             if not ctx.require(what + ": returns a 0/1 sample of shape (..., units)",
                                r is not None and tuple(r.shape) == shape and is01(r), case,
-                               {"returned": r.tolist() if r is not None else type(res).__name__, "expected shape": list(shape)}):
+                               {"returned": r.tolist() if r is not None else type(res).__name__, "expected shape": list(shape)}) \
+                    or not kept:
                 good = False
                 continue
             if buf is not None:
@@ -535,6 +608,8 @@ def check_kernel(ctx, net, light=False):
     nv = net.nv
     ok, prob = ctx.call("probability(space)", case, lambda: tnp(net.state.probability(torch.tensor(net.V, dtype=torch.double))))
     if not ok:
+        return
+    if not ctx.require("probability(space) has one entry per basis state", prob.shape == (len(net.V),), case, list(prob.shape)):
         return
     ok, prob1 = ctx.call("probability(v) 1-D", case, lambda: float(net.state.probability(torch.tensor(net.V[-1], dtype=torch.double))))
     K = impl_kernel(net)
@@ -666,6 +741,32 @@ class BernoulliSpy:
 
 def is01(x):
     return bool(np.all((x == 0.0) | (x == 1.0)))
+
+
+def shp(t):
+    """shape of whatever the implementation handed back (None when it has none)"""
+    try:
+        return tuple(int(x) for x in t.shape)
+    except Exception:                                   # noqa: BLE001
+        return None
+
+
+def keeps_shape(ctx, what, case, named):
+    """(l) A call never changes the SHAPE of a tensor that belongs to the caller (start state, the larger tensor it is a view
+    of, an out= buffer, a tensor handed over for continuation): `named` = [(name, tensor, shape before the call)].  Every use
+    of such a tensor after a call (reshape to (chains, nv), boolean-mask indexing) is guarded by this requirement, so that a
+    reshaped tensor is a failing input and never an exception inside the harness."""
+    bad = {n: {"shape before": list(s0), "shape after": list(shp(t) or ())} for n, t, s0 in named if shp(t) != tuple(s0)}
+    return ctx.require(what + ": the caller's tensors keep their shape (the start state is updated IN PLACE or left untouched, "
+                       "never reshaped)", not bad, case, bad)
+
+
+def safe(fn):
+    """detail builders must never raise inside the harness"""
+    try:
+        return fn()
+    except Exception as e:                              # noqa: BLE001
+        return {"detail unavailable": repr(e)[:200]}
 
 
 def _as_rows(x, M):
@@ -834,6 +935,10 @@ def one_run(ctx, net, k, overwrite, v0, via, seed, form="2d", outer=None):
     before = v0.detach().clone()
     pool_before = outer[0].detach().clone() if outer is not None else None
     ptr = v0.data_ptr()
+    shape0 = tuple(v0.shape)                        # the REQUESTED shape, read before the call (the call may reshape v0)
+    owned = [("start state", v0, shape0)] + ([("larger tensor the start state is a view of", outer[0], tuple(outer[0].shape))]
+                                             if outer is not None else [])
+    case["start_shape"] = list(shape0)
     torch.manual_seed(seed)
     with BernoulliSpy() as spy:
         if via == "sample":
@@ -846,14 +951,15 @@ def one_run(ctx, net, k, overwrite, v0, via, seed, form="2d", outer=None):
     ctx.count("start:%s:%s" % (form, dt))
     if not ok:
         return None
+    kept = keeps_shape(ctx, what, case, owned)
     if not ctx.require(what + ": returns a tensor", isinstance(res, torch.Tensor), case, type(res).__name__):
         return None
     result = tnp(res)
     if not ctx.require(what + ": result is a 0/1 array with the shape of the start state (chains..., nv)",
-                       tuple(result.shape) == tuple(v0.shape) and is01(result), case,
-                       {"shape": list(result.shape), "start shape": list(v0.shape)}):
-        return None
-    M = int(np.prod(v0.shape[:-1])) if v0.dim() > 1 else 1
+                       tuple(result.shape) == shape0 and is01(result), case,
+                       {"shape": list(result.shape), "start shape": list(shape0)}) or not kept:
+        return None                                 # everything below reshapes / indexes the result and the caller's tensors
+    M = int(np.prod(shape0[:-1])) if len(shape0) > 1 else 1
     start2 = tnp(before).reshape(M, net.nv)
     res2 = result.reshape(M, net.nv)
     if k == 0:
@@ -909,11 +1015,12 @@ def one_run(ctx, net, k, overwrite, v0, via, seed, form="2d", outer=None):
         result_is_private(ctx, net, case, what, res, via,
                           lambda: bool(torch.equal(v0, before)) and
                           (outer is None or bool(np.array_equal(tnp(outer[0]), tnp(pool_before)))),
-                          lambda: {"start state before": start2.tolist(),
-                                   "start state now": (tnp(fresh_view(form, outer[0], M, net.nv)) if outer is not None and form in LAYOUTS
-                                                       else tnp(v0)).reshape(M, net.nv).tolist(),
-                                   "returned tensor is the caller's tensor object": res is v0,
-                                   "returned tensor starts at the caller's memory address": same})
+                          lambda: safe(lambda: {
+                              "start state before": start2.tolist(),
+                              "start state now": (tnp(fresh_view(form, outer[0], M, net.nv)) if outer is not None and form in LAYOUTS
+                                                  else tnp(v0)).reshape(M, net.nv).tolist(),
+                              "returned tensor is the caller's tensor object": res is v0,
+                              "returned tensor starts at the caller's memory address": same}), owned=owned)
         if isinstance(res, torch.Tensor):
             net._earlier_result = (res, res.detach().clone(), what)
     return res
@@ -926,7 +1033,7 @@ def _same_storage(a, b):
         return a.storage().data_ptr() == b.storage().data_ptr()
 
 
-def result_is_private(ctx, net, case, what, res, via, start_untouched, detail):
+def result_is_private(ctx, net, case, what, res, via, start_untouched, detail, owned=()):
     """(k) A call with overwrite=False hands back the chain states; the caller's start state "is left untouched unless
     overwriting was requested" -- for THIS call and for whatever the caller does next with what he got back.  A single call
     cannot show a result that still shares memory with the start state (k = 0: nothing was written; values, shape and law
@@ -965,6 +1072,10 @@ def result_is_private(ctx, net, case, what, res, via, start_untouched, detail):
                      (lambda: net.state.sample(1, initial_state=res, overwrite=True)))
     if ok:
         ctx.count("alias_probe:chain continued from the result with overwrite=True")
+        # the returned tensor is now the caller's start state of an overwrite=True call: updated in place, never reshaped
+        good &= keeps_shape(ctx, what + " then the chain continued from the returned tensor with overwrite=True",
+                            dict(case, followed_by="chain continued from the returned tensor with overwrite=True"),
+                            [("returned tensor handed back as start state", res, tuple(keep.shape))] + list(owned))
         good &= ctx.require(what + ": overwrite=False leaves the caller's start state untouched when the chain is afterwards "
                             "CONTINUED from the returned tensor with overwrite=True (overwriting was never requested for the "
                             "original start state)", start_untouched(),
@@ -1197,7 +1308,7 @@ def check_statistical(ctx, net, n_chains=200000):
         ok, res = ctx.call("sample for the statistical test", case, lambda: net.state.sample(k, initial_state=v0))
         if not ok:
             continue
-        r = tnp(res)
+        r = tnp(res) if isinstance(res, torch.Tensor) else np.zeros(0)
         if r.shape != (n_chains, net.nv) or not is01(r):
             ctx.require("statistical test: samples are 0/1 of shape (chains, nv)", False, case, list(r.shape))
             continue
@@ -1254,7 +1365,7 @@ def check_random_start(ctx, net, n_chains=200000):
                 ok, res = ctx.call("sample(k=, num_samples=)", case, lambda: net.state.sample(k=k, num_samples=n_chains))
         if not ok:
             continue
-        r = tnp(res)
+        r = tnp(res) if hasattr(res, "detach") else np.zeros(0)
         if not ctx.require("sample(k, num_samples): result has shape (num_samples, nv) with 0/1 entries",
                            r.shape == (n_chains, net.nv) and is01(r), case, list(r.shape)):
             continue
@@ -1285,9 +1396,10 @@ def check_big_batch(ctx, net, reps=4796):
             ok, res = ctx.call(what, case, lambda: net.state.sample(k, initial_state=v0, overwrite=overwrite))
         if not ok:
             continue
-        r = tnp(res)
+        r = tnp(res) if isinstance(res, torch.Tensor) else np.zeros(0)
+        kept = keeps_shape(ctx, what, case, [("start state", v0, (M, net.nv))])
         if not ctx.require(what + ": result is a 0/1 array with the shape of the start state", r.shape == (M, net.nv) and is01(r),
-                           case, list(r.shape)):
+                           case, list(r.shape)) or not kept:
             continue
         if overwrite:
             ctx.require("overwrite=True updates the caller's start state in place", bool(np.array_equal(tnp(v0), r)), case,
@@ -1390,14 +1502,17 @@ def check_layout_law(ctx, net, full, reps=None):
                         else "state %s repeated" % net.V[s0].tolist())
         what = "sample(k=%d, initial_state=<%d chains, layout %s, %s>, overwrite=%s)" % (k, M, name, dtype, overwrite)
         pool_before = tnp(pool)
+        shape0 = tuple(v0.shape)
+        owned = [("start state", v0, shape0), ("larger tensor the start state is a view of", pool, tuple(pool.shape))]
         ok, res = ctx.call(what, case, lambda: net.state.sample(k, initial_state=v0, overwrite=overwrite))
         ctx.count("layout_law:%s:%s:ow=%s" % (name, dtype, overwrite))
         if not ok:
             continue
         r = tnp(res) if isinstance(res, torch.Tensor) else None
+        kept = keeps_shape(ctx, what, case, owned)
         if not ctx.require(what + ": result is a 0/1 array with the shape of the start state",
-                           r is not None and tuple(r.shape) == tuple(v0.shape) and is01(r), case,
-                           {"shape": list(np.shape(r)), "start shape": list(v0.shape)}):
+                           r is not None and tuple(r.shape) == shape0 and is01(r), case,
+                           {"shape": list(np.shape(r)), "start shape": list(shape0)}) or not kept:
             continue
         r2 = r.reshape(M, net.nv)
         law_by_start(ctx, net, "STATISTICAL TEST (Hoeffding, delta=1e-9 per cell): law of sample(k, initial_state=<strided view / "
@@ -1410,7 +1525,7 @@ def check_layout_law(ctx, net, full, reps=None):
             # chains continued across calls on the caller's own view
             ok, _ = ctx.call(what + " then sample(1, same view, overwrite=True)", case,
                              lambda: net.state.sample(1, initial_state=v0, overwrite=True))
-            if ok:
+            if ok and keeps_shape(ctx, what + " then sample(1, same view, overwrite=True)", case, owned):
                 buf2 = tnp(v0).reshape(M, net.nv)
                 if is01(buf2):
                     law_by_start(ctx, net, "STATISTICAL TEST (Hoeffding, delta=1e-9 per cell): a chain continued in the caller's "
@@ -1419,8 +1534,9 @@ def check_layout_law(ctx, net, full, reps=None):
         else:
             ctx.require(what + ": overwrite=False leaves the caller's start state untouched",
                         bool(np.array_equal(tnp(v0).reshape(M, net.nv), rows)), case)
-        ctx.require(what + ": cells of the caller's larger tensor outside the start-state view keep their values",
-                    bool(np.array_equal(tnp(pool)[mask], pool_before[mask])), case, {"pool shape": list(pool.shape)})
+        if shp(pool) == pool_before.shape:              # (a reshaped pool has been reported by keeps_shape)
+            ctx.require(what + ": cells of the caller's larger tensor outside the start-state view keep their values",
+                        bool(np.array_equal(tnp(pool)[mask], pool_before[mask])), case, {"pool shape": list(pool.shape)})
         ctx.extra["layout_law_tests"] = ctx.extra.get("layout_law_tests", 0) + 1
 
 
@@ -1471,10 +1587,11 @@ def check_observable_chains(ctx, net, full):
         what = "Observable.statistics(num_samples=2*chains, burn_in=%d, steps=%d, initial_state=<%s view>, overwrite=%s)" % (
             burn, steps, name, overwrite)
         pool_before = tnp(pool)
+        owned = [("user's chain view", v0, tuple(v0.shape)), ("larger tensor the view belongs to", pool, tuple(pool.shape))]
         ok, _ = ctx.call(what, case, lambda: obs.statistics(net.state, 2 * M, burn_in=burn, steps=steps, initial_state=v0,
                                                             overwrite=overwrite))
         ctx.count("observable_chains:%s:ow=%s" % (name, overwrite))
-        if not ok:
+        if not ok or not keeps_shape(ctx, what, case, owned):
             continue
         seen = [tnp(t) for t in obs.seen]
         if len(seen) != 2 or any(t.shape != (M, net.nv) or not is01(t) for t in seen):
@@ -1527,11 +1644,13 @@ def observable_sample_run(ctx, net, name, overwrite, k):
     except Exception:                                       # noqa: BLE001
         return
     pool_before = tnp(pool)
+    owned = [("user's chain view", v0, tuple(v0.shape)), ("larger tensor the view belongs to", pool, tuple(pool.shape))]
     torch.manual_seed(seed)
     with BernoulliSpy() as spy:
         ok, _ = ctx.call("Observable.sample(k, initial_state=<view>)", case,
                          lambda: obs.sample(net.state, k, initial_state=v0, overwrite=overwrite))
     ctx.count("observable_sample:k=%d:ow=%s" % (k, overwrite))
+    ok = ok and keeps_shape(ctx, "Observable.sample(k=%d, overwrite=%s)" % (k, overwrite), case, owned)
     if ok and len(obs.seen) == 1 and tuple(obs.seen[0].shape) == (4, net.nv) and is01(tnp(obs.seen[0])):
         res2 = tnp(obs.seen[0])
         what = "Observable.sample(k=%d, overwrite=%s)" % (k, overwrite)
@@ -1770,8 +1889,9 @@ def long_chain_checks(ctx, net, law_ks=LONG_LAW_KS):
         if not ok:
             continue
         r = tnp(res) if isinstance(res, torch.Tensor) else None
+        kept = keeps_shape(ctx, what, case, [("start state", v0, (n, net.nv))])
         if not ctx.require(what + ": result is a 0/1 array with the shape of the start state",
-                           r is not None and r.shape == (n, net.nv) and is01(r), case, {"shape": list(np.shape(r))}):
+                           r is not None and r.shape == (n, net.nv) and is01(r), case, {"shape": list(np.shape(r))}) or not kept:
             continue
         law = np.linalg.matrix_power(net.K_exact, k)[s0]
         for name, arr in (("returned samples", r),) + ((("caller's tensor", tnp(v0)),) if overwrite else ()):
@@ -1880,6 +2000,76 @@ def zero_step_first(ctx, net):
                     ctx.count("zero_step_first:k=%d" % k)
 
 
+def one_row_first(ctx, net):
+    """(l) ONE-ROW REGIMES, fixed cases: "samples are 0/1 arrays of the requested shape" for a request of exactly ONE chain.
+    A (1, nv) start state -- dense, as every 2-D view layout of a larger tensor, in several dtypes --, 3-D start states with a
+    leading / inner axis of size one, and a 1-D start state, through the three entry points, k = 0..3, overwrite off and on:
+    the result has STRICTLY the shape of the start state, the caller's tensor keeps its shape (one_run), chains continued from
+    the result; sample(k, 1) / sample(k) / sample(k, num_samples=1) without a start state return shape (1, nv); the public
+    conditionals and single-layer samplers on a one-row batch (one_row_conditionals, check_layer_samplers)."""
+    import torch
+    rng = ctx.rng
+    vias = ("sample", "gibbs_steps", "sample(num_samples ignored)")
+    n = 0
+    for name in LAYOUTS_2D:
+        if LAYOUTS[name][2] == "same":
+            continue                                    # (expanded to one row = the dense case)
+        for overwrite in (False, True):
+            for k in ((1, 2, 3, 0) if name == "contiguous" else (int(rng.integers(1, 4)),)):
+                dtype = "float64" if name == "contiguous" or n % 3 else DTYPES[int(rng.integers(len(DTYPES)))]
+                v0, pool, mask = make_start(name, net.V[rng.integers(len(net.V), size=1)], dtype)
+                r1 = one_run(ctx, net, k, overwrite, v0, vias[n % 3], ctx.torch_seed(), form=name, outer=(pool, mask))
+                n += 1
+                ctx.count("one_row_first:2-D (1, nv)")
+                if r1 is not None and name == "contiguous" and k in (1, 2):
+                    # chain continued across calls from the one-row result
+                    one_run(ctx, net, int(rng.integers(1, 3)), overwrite, r1, vias[n % 3], ctx.torch_seed())
+    # every accepted dtype on a dense one-row start state (another dtype: the chain runs on a converted copy)
+    for i, dtype in enumerate(DTYPES[1:]):
+        v0, pool, mask = make_start("contiguous", net.V[rng.integers(len(net.V), size=1)], dtype)
+        one_run(ctx, net, 1 + i % 2, bool(i % 2), v0, vias[i % 3], ctx.torch_seed(), form="contiguous", outer=(pool, mask))
+        ctx.count("one_row_first:dtype")
+    # 3-D start states with an axis of size one (dense, built directly), and the 1-D form
+    for i, lead in enumerate(((1, 1), (1, 2), (2, 1), (1, 3))):
+        for overwrite in (False, True):
+            M = lead[0] * lead[1]
+            v0 = torch.tensor(net.V[rng.integers(len(net.V), size=M)], dtype=torch.double).reshape(lead + (net.nv,)).clone()
+            one_run(ctx, net, int(rng.integers(1, 4)), overwrite, v0, vias[(i + int(overwrite)) % 3], ctx.torch_seed(),
+                    form="3d %s" % (lead,))
+            ctx.count("one_row_first:3-D")
+    for k in (1, 3):
+        for overwrite in (False, True):
+            v0, pool, mask = make_start("1d", net.V[rng.integers(len(net.V), size=1)], "float64")
+            one_run(ctx, net, k, overwrite, v0, vias[(k + int(overwrite)) % 3], ctx.torch_seed(), form="1d", outer=(pool, mask))
+            ctx.count("one_row_first:1-D")
+    # ONE sample requested without a start state: positional, default and keyword forms
+    for k in (0, 1, 2):
+        for form, fn in (("sample(k, 1)", lambda: net.state.sample(k, 1)), ("sample(k)", lambda: net.state.sample(k)),
+                         ("sample(k=k, num_samples=1)", lambda: net.state.sample(k=k, num_samples=1))):
+            seed = ctx.torch_seed()
+            case = net.case(part="sampler", k=k, num_samples=1, via=form, torch_seed=seed)
+            what = "%s with k=%d" % (form, k)
+            with BernoulliSpy() as spy:
+                ok, res = ctx.call(what, case, fn)
+            ctx.count("one_row_first:num_samples=1")
+            if not ok:
+                continue
+            r = tnp(res) if isinstance(res, torch.Tensor) else None
+            if not ctx.require(what + ": result has the requested shape (num_samples, nv) = (1, nv) with 0/1 entries",
+                               r is not None and tuple(r.shape) == (1, net.nv) and is01(r), case,
+                               {"shape": list(shp(res) or ()), "requested shape": [1, net.nv]}):
+                continue
+            calls = spy.calls
+            if calls and np.shape(calls[0]["out"]) == (1, net.nv) and is01(calls[0]["out"]):
+                steps, reason = interpret_run(net, calls[1:], calls[0]["out"], k)
+                states = [calls[0]["out"]] + [st["v"] for st in steps]
+                if reason is None and len(steps) >= k and np.array_equal(r, states[k]):
+                    ctx.traces += 1
+                else:
+                    ctx.count("random_start_run_not_tied_to_draws")     # decided by the law tests given the start draw
+    one_row_conditionals(ctx, net, n_rows=3)
+
+
 def arch_sweep(ctx):
     """EVERY architecture of the quantifier (nv, nh in 1..4; na in 1..3), fixed block of the quick tier too: the 16 binary shapes
     for the positive and for the complex state, the 48 purification shapes -- every parameter tensor of every network drawn at
@@ -1916,6 +2106,7 @@ def layouts_first(ctx):
         ctx.torch_seed()
         net = moderate_net(ctx, kind, nv, nh, na)
         ctx.count("layouts_first:" + kind)
+        one_row_first(ctx, net)
         check_layer_samplers(ctx, net)
         zero_step_first(ctx, net)
         layout_runs(ctx, net, full=True, k_fixed=0)
@@ -2007,4 +2198,7 @@ def replay(ctx, rec):
         net = Net(kind, case["nv"], case["nh"], case.get("na", 0), case["params"])
     if part.startswith("long chains") or int(case.get("k") or 0) > 3:
         long_chain_checks(ctx, net)
+    if part in ("sampler", "conditionals", "layer samplers"):
+        zero_step_first(ctx, net)
+        one_row_first(ctx, net)
     check_net(ctx, net, statistical=part.startswith("statistical test"), extended=ext, hows=[])
